@@ -130,9 +130,9 @@ func cfgToExt(g *gramenum.Gram) *extsem.Grammar {
 		a := &extsem.Alt{Arrow: &extsem.Arrow{Name: fmt.Sprintf("R%d", i), Shape: "rule"}}
 		for _, s := range r.RHS {
 			if s <= g.T {
-				a.Parts = append(a.Parts, &extsem.Expr{Kind: extsem.Tok, Ch: gramenum.TermChar(s)})
+				a.Parts = append(a.Parts, &extsem.Expr{Kind: extsem.KTok, Ch: gramenum.TermChar(s)})
 			} else {
-				a.Parts = append(a.Parts, &extsem.Expr{Kind: extsem.Ref, NT: s - g.T - 1})
+				a.Parts = append(a.Parts, &extsem.Expr{Kind: extsem.KRef, NT: s - g.T - 1})
 			}
 		}
 		nt := out.NTs[r.LHS-g.T-1]
